@@ -220,6 +220,67 @@ pub enum MB {
     A,
 }
 
+/// a look-ahead pattern next to a longer token that continues with the very byte that satisfies
+/// the assertion: the state after the keyword is early-accepting for one and on the path of the other
+#[derive(Logos, Debug, Clone, PartialEq)]
+#[logos(extras = Log, error = MyErr)]
+pub enum ML {
+    #[regex(r"let(?-u:\b)", cb_val)]
+    Kw(usize),
+    #[token("let ", cb_unit)]
+    KwBlank,
+    #[regex("(?m:end$)", cb_val)]
+    End(usize),
+    #[token("end\n", cb_unit)]
+    EndNl,
+    #[token(" ")]
+    Sp,
+    #[token("\n")]
+    Nl,
+    #[token("!", cb_skip)]
+    Bang,
+}
+
+fn reference_ml(input: &str) -> (Vec<(String, usize, usize)>, Log) {
+    let b = input.as_bytes();
+    let word = |c: Option<&u8>| matches!(c, Some(b'0'..=b'9' | b'A'..=b'Z' | b'a'..=b'z' | b'_'));
+    let (mut items, mut log): (Vec<(String, usize, usize)>, Log) = (vec![], vec![]);
+    let mut p = 0;
+    while p < b.len() {
+        let rest = &b[p..];
+        let (name, n, cb): (String, usize, bool) = if rest.starts_with(b"let ") {
+            ("Ok(KwBlank)".into(), 4, true)
+        } else if rest.starts_with(b"let") && !word(rest.get(3)) {
+            ("Ok(Kw(3))".into(), 3, true)
+        } else if rest.starts_with(b"end\n") {
+            ("Ok(EndNl)".into(), 4, true)
+        } else if rest.starts_with(b"end") && rest.len() == 3 {
+            ("Ok(End(3))".into(), 3, true)
+        } else if rest[0] == b' ' {
+            ("Ok(Sp)".into(), 1, false)
+        } else if rest[0] == b'\n' {
+            ("Ok(Nl)".into(), 1, false)
+        } else if rest[0] == b'!' {
+            (String::new(), 1, true)
+        } else {
+            let lcp = |kw: &[u8]| kw.iter().zip(rest.iter()).take_while(|(x, y)| x == y).count();
+            let mut e = lcp(b"let").max(lcp(b"end")).max(1);
+            while !input.is_char_boundary(p + e) {
+                e += 1;
+            }
+            ("Err(Default)".into(), e, false)
+        };
+        if cb {
+            log.push((p, p + n, input[p..p + n].to_string()));
+        }
+        if !name.is_empty() {
+            items.push((name, p, p + n));
+        }
+        p += n;
+    }
+    (items, log)
+}
+
 /// expected items of MB: (Debug string, start, end)
 fn reference_mb(input: &[u8]) -> Vec<(String, usize, usize)> {
     let mut v = vec![];
@@ -384,20 +445,23 @@ where
     T: Logos<'s, Source = str, Extras = Log> + std::fmt::Debug,
     T::Error: std::fmt::Debug,
 {
-    let mut lex = Lexer::<T>::new(input);
-    let mut items = vec![];
-    while let Some(r) = lex.next() {
-        let sp = lex.span();
-        items.push((format!("{r:?}"), sp.start, sp.end));
-        if items.len() > input.len() + 2 {
-            items.push(("HUNG".into(), 0, 0));
-            break;
+    let r = std::panic::catch_unwind(std::panic::AssertUnwindSafe(|| {
+        let mut lex = Lexer::<T>::new(input);
+        let mut items = vec![];
+        while let Some(r) = lex.next() {
+            let sp = lex.span();
+            items.push((format!("{r:?}"), sp.start, sp.end));
+            if items.len() > input.len() + 2 {
+                items.push(("HUNG".into(), 0, 0));
+                break;
+            }
         }
-    }
-    (items, std::mem::take(&mut lex.extras))
+        (items, std::mem::take(&mut lex.extras))
+    }));
+    r.unwrap_or_else(|_| (vec![("PANIC".to_string(), 0, 0)], vec![]))
 }
 
-fn strings(alpha: &[&str], l: usize, f: &mut dyn FnMut(&str)) {
+pub fn strings(alpha: &[&str], l: usize, f: &mut dyn FnMut(&str)) {
     fn rec(alpha: &[&str], l: usize, buf: &mut String, depth: usize, f: &mut dyn FnMut(&str)) {
         f(buf);
         if depth == l {
@@ -427,6 +491,7 @@ pub fn run(tier: &str, rep: &mut Report) {
     let twin_alpha: Vec<&str> = vec!["a", "g", "i", "o", "0", "1", " ", "!"];
     rep.bounds.insert("rule".into(), format!("real #[derive(Logos)] enums carrying callbacks of every documented return type (named functions: enum M, 19 variants + 4 skip callbacks; closures + error callback: enum C); inputs: all strings of <= {l} symbols over alphabets of {} / {} symbols, plus digit runs up to 5; decisions are pure functions of the matched length; oracle: a hand-written reference (first letter + digits) + the documented table; checked: item stream, spans, callback log (one invocation per winning match, none for losers), Skip == skip pattern (twin enum), bump extends the item. Non-trivial = the expected stream invokes at least one callback whose outcome is not a plain Emit, or an error, or a skip.", named_alpha.len(), clos_alpha.len()));
     let mut digest = 0xcbf29ce484222325u64;
+    std::panic::set_hook(Box::new(|_| {}));
     let mut check = |rep: &mut Report, name: &str, input: &str, got: (Vec<(String, usize, usize)>, Log), want: (Vec<(String, usize, usize)>, Log), digest: &mut u64| {
         rep.count("evaluations", 1);
         rep.count("traces_validated_against_impl", 1);
@@ -462,6 +527,11 @@ pub fn run(tier: &str, rep: &mut Report) {
     };
     strings(&named_alpha, l, &mut |s| check(rep, "M", s, observe::<M>(s), reference(s, Which::Named), &mut digest));
     strings(&clos_alpha, l, &mut |s| check(rep, "C", s, observe::<C>(s), reference(s, Which::Closures), &mut digest));
+    // look-ahead keyword next to the longer token continuing with the asserting byte
+    strings(&["l", "e", "t", "n", "d", " ", "\n", "!", "é"], l + 2, &mut |s| check(rep, "ML", s, observe::<ML>(s), reference_ml(s), &mut digest));
+    for s in ["let let\nend\nend", "let!let letx end", "end\n\nend end\nlet", "letend", "endlet \n"] {
+        check(rep, "ML", s, observe::<ML>(s), reference_ml(s), &mut digest);
+    }
     // longer digit runs and bump runs
     for letter in "abcdefghijklmnopvwxyz".chars() {
         for n in 0..=5 {
@@ -487,7 +557,6 @@ pub fn run(tier: &str, rep: &mut Report) {
         }
     }
     // bump from callbacks on a byte source, including bumps that end exactly at the end of input
-    std::panic::set_hook(Box::new(|_| {}));
     let mut mb_runs = 0u64;
     strings(&["u", "s", "a", " ", "x"], l + 3, &mut |s| {
         mb_runs += 1;
@@ -503,7 +572,6 @@ pub fn run(tier: &str, rep: &mut Report) {
             });
         }
     });
-    let _ = std::panic::take_hook();
     rep.count("evaluations", mb_runs);
     rep.count("traces_validated_against_impl", mb_runs);
     // Skip from a callback == skip pattern
@@ -522,6 +590,7 @@ pub fn run(tier: &str, rep: &mut Report) {
             });
         }
     });
+    let _ = std::panic::take_hook();
     rep.count("evaluations", twin_runs);
     rep.count("twin_comparisons", twin_runs);
     rep.observe("transcript_digest_low32", digest & 0xffff_ffff);
@@ -537,6 +606,7 @@ pub fn replay(rec: &serde_json::Value, rep: &mut Report) {
     let bad = match r["enum"].as_str().unwrap_or("") {
         "M" => observe::<M>(input) != reference(input, Which::Named),
         "C" => observe::<C>(input) != reference(input, Which::Closures),
+        "ML" => observe::<ML>(input) != reference_ml(input),
         "MB" => observe_mb(input.as_bytes()) != reference_mb(input.as_bytes()),
         _ => observe::<M>(input).0 != observe::<Twin>(input).0,
     };
